@@ -394,18 +394,21 @@ def run_sync(seed: int, buffered: bool) -> dict[str, Any]:
 # ---------------------------------------------------------------------------------------------------------------
 
 
+def _run_three(arg: tuple[int, bool]) -> list[dict[str, Any]]:
+    seed, buffered = arg
+    return [run_async(seed, "endpoint", buffered), run_async(seed, "client", buffered), run_sync(seed, buffered)]
+
+
 def run(chk: Check) -> None:
     quick = chk.tier == "quick"
     if not model(chk, quick):
         return
     n = 250 if quick else 4000
+    from ..common import pmap
+
     rec: list[dict[str, Any]] = []
-    for i in range(n):
-        seed = chk.seed * 1000033 + i
-        buffered = bool(i % 2)
-        rec.append(run_async(seed, "endpoint", buffered))
-        rec.append(run_async(seed, "client", buffered))
-        rec.append(run_sync(seed, buffered))
+    for part in pmap(_run_three, [(chk.seed * 1000033 + i, bool(i % 2)) for i in range(n)]):
+        rec += part
     slim = [{"par": t["par"], "events": t["events"]} for t in rec]
     res = traces.validate("RecvClientTrace", slim, cfg_text=TRACE_CFG, parallel=8, chunk=600)
     chk.traces += len(rec)
